@@ -35,13 +35,16 @@ def moved_from(tag, code):
 class Spec:
     """Value-semantic specification of a pool of containers (no heap, no pointers)."""
 
-    __slots__ = ("slots",)
+    __slots__ = ("slots", "rmove")
 
-    def __init__(self, slots=None):
+    def __init__(self, slots=None, rmove=False):
         self.slots = list(slots) if slots is not None else [DEAD] * POOL
+        # the property does not say whether `T x = any_cast<T>(std::move(a))` copies (this port, boost) or
+        # moves (std::any) the held object out: both are accepted; rmove selects the second reading
+        self.rmove = rmove
 
     def copy(self):
-        return Spec(self.slots)
+        return Spec(self.slots, self.rmove)
 
     def live(self, k):
         return 0 <= k < POOL and self.slots[k] is not DEAD
@@ -138,7 +141,7 @@ class Spec:
                 hit("invalid"); return "inv"
             if s[a] != EMPTY and s[a][0] == t:
                 code = s[a][1]
-                if form == "m":
+                if form == "m" or (form == "r" and self.rmove):
                     s[a] = (t, moved_from(t, code))
                 hit("castValue[%s]:ok" % form)
                 return "r=%d" % code
@@ -172,12 +175,12 @@ class Spec:
         return out
 
 
-def spec_line(line):
+def spec_line(line, rmove=False):
     """expected output tokens (probe counters reduced to the live count) of a case line"""
     t = line.split()
     full = t[2] == "F"
     ops = t[3:]
-    sp = Spec()
+    sp = Spec(rmove=rmove)
     out = []
     for i, tok in enumerate(ops):
         out.append(sp.apply(tok))
@@ -188,6 +191,7 @@ def spec_line(line):
     return " ".join(out)
 
 
+_RVAL = re.compile(r" vc:\d+:[idsmp]:r( |$)")
 _MASK = re.compile(r"c=(-?\d+)/-?\d+/-?\d+|src=\S+")
 
 
@@ -449,8 +453,12 @@ def shrink(binary, line, key):
         h, _, lsan = run_harness_limited(binary, [ln], 1)
         if lsan:
             return True
-        ps = [p for p in classify(ln, h[0], spec_line(ln), spec_line(ln)) if p[0] == "prop"]
-        return any(p[1] == key or key.startswith("crash") and p[1].startswith("crash") for p in ps)
+        for rm in ((False, True) if _RVAL.search(ln) else (False,)):
+            w = spec_line(ln, rm)
+            ps = [p for p in classify(ln, h[0], w, w) if p[0] == "prop"]
+            if not any(p[1] == key or key.startswith("crash") and p[1].startswith("crash") for p in ps):
+                return False
+        return True
 
     if not fails(ops):
         return line, None
@@ -509,6 +517,9 @@ def run(ctx):
                 continue
             if mask(h) == mask(d) == want:
                 acc["mech"].append((line, h, d))
+                continue
+            if _RVAL.search(line) and not h.startswith("crash") and mask(h) == spec_line(line, rmove=True):
+                acc["mech"].append((line, h, d))      # the rvalue value cast moves the held object out: allowed
                 continue
             for kind, key, what in classify(line, h, d, want):
                 (acc["prop_bad"] if kind == "prop" else acc["corr_bad"]).append((key, what, line, h, d, want, logs.get(idx, "")))
